@@ -32,16 +32,17 @@ RULE = (
     "one seeded graph per run (n = 2..9 for iso_finder, n <= 6 for orbit explorers; ER / path / star / cycle / complete / "
     "tree / repeater / unions) and 3-7 calls over {iso_finder(n_iso, rel_inc_thresh, allow_exhaustive, thresh, label_map, "
     "seed), lc_orbit_finder(comp_depth<=3 or orbit_size_thresh<=10, with_iso, rand, rep_allowed), rgs_orbit_finder, "
-    "linear_partial_orbit, depth_first_orbit, relabel, get_relabel_map}; Generator and global draws owned, rng_duplicate / "
+    "linear_partial_orbit, depth_first_orbit, get_lc_graph_by_max_edge / _max_neighbor_edge (preprocessing), relabel, "
+    "get_relabel_map}, on one of the run's two input graphs; Generator and global draws owned, rng_duplicate / "
     "rng_extreme injected at a per-run rate. Distinct = distinct event-log digest; non-trivial = iso_finder's adaptive loop "
     "iterated at least once, or a random walk of >= 2 complementations was taken."
 )
 PROBES = ["iso_adaptive_loop_iterated", "iso_fewer_than_requested", "iso_nonexhaustive_branch_n_ge_8", "iso_with_label_map",
           "orbit_random_walk", "orbit_threshold_hit", "orbit_closed_before_threshold", "rgs_done", "linear_done", "dfs_done",
-          "iso_request_exceeds_nfact"]
+          "iso_request_exceeds_nfact", "preprocessing_explorer_done"]
 REAL = ["graphiq.utils.relabel_module (iso_finder, _label_finder, _add_labels, automorph_check, relabel, get_relabel_map, "
         "lc_orbit_finder, rgs_orbit_finder, linear_partial_orbit, depth_first_orbit, check_isomorphism)",
-        "graphiq.backends.lc_equivalence_check.local_comp_graph"]
+        "graphiq.backends.lc_equivalence_check.local_comp_graph", "graphiq.utils.preprocessing (get_lc_graph_by_max_edge, get_lc_graph_by_max_neighbor_edge, graph metrics)"]
 STUB = ["numpy.random.default_rng -> simulator-seeded Generator behind a proxy (duplicate answers injected); numpy.random.randint / shuffle owned"]
 ASSUMPTIONS = [
     "networkx VF2 isomorphism test is trusted",
@@ -66,13 +67,15 @@ def gen_case(run_seed, tier):
                 break
     else:
         g, fam = graphs.random_graph(sz, 2, 6 if tier != "thorough" else 7, connected=sz.random() < 0.7, allow_isolated=sz.random() < 0.2)
-    if not big and sz.random() < 0.12:
-        g, fam = graphs.path(sz.randint(3, 6)), "canonical path"  # the labelling linear_partial_orbit is written for
+    if not big and sz.random() < 0.14:
+        g, fam = graphs.path(sz.choice([3, 4, 4, 5, 6, 6, 8])), "canonical path"  # the labelling linear_partial_orbit is written for
     n = g[0]
     calls = []
     for _ in range(sz.randint(3, 7)):
-        kind = wl.choices(["iso", "orbit", "rgs", "linear", "dfs", "relabel", "map"], weights=[6, 6, 1, 1.5, 2.5, 1, 2])[0]
-        if n > 6 and kind in ("orbit", "dfs", "rgs", "linear"):
+        kind = wl.choices(["iso", "orbit", "rgs", "linear", "dfs", "relabel", "map", "maxedge", "maxnbr"], weights=[6, 6, 1, 1.5, 2.5, 1, 2, 1.2, 1.2])[0]
+        if fam == "canonical path" and wl.random() < 0.5:
+            kind = "linear"  # the scripted walk is called several times in one run
+        if n > 6 and kind in ("orbit", "dfs", "rgs", "maxedge", "maxnbr") or n > 8 and kind == "linear":
             kind = "iso"
         if kind == "iso":
             nmax = math.factorial(n)
@@ -83,6 +86,8 @@ def gen_case(run_seed, tier):
             bound = wl.choice(["depth", "size", "both"])
             calls.append(["orbit", wl.randint(1, 3) if bound != "size" else None, wl.randint(1, 10) if bound != "depth" else None,
                           wl.random() < 0.5, wl.random() < 0.4, wl.random() < 0.25])
+        elif kind in ("maxedge", "maxnbr"):
+            calls.append([kind, wl.randint(1, 4), wl.randrange(4), wl.randint(1, 3), wl.random() < 0.5])
         else:
             calls.append([kind, wl.randrange(10**6)])
     # a second graph of the same size class: several calls of one run then act on different inputs, so that state kept
@@ -234,6 +239,23 @@ def run_case(case):
                         if not judge_orbit(ctx, step, graphs_out, n, orbit, sig, distinct=None if rep else ("equal" if with_iso else "iso")):
                             break
                         ctx.log(step, "orbit", depth, size, with_iso, rand, rep, len(graphs_out))
+                    elif k in ("maxedge", "maxnbr"):
+                        import graphiq.utils.preprocessing as pre
+
+                        if not nx.is_connected(G) or n < 2:
+                            ctx.log(step, k, "skipped")
+                            continue
+                        _, n_graphs, mi, n_trial, as_matrix = call
+                        f = pre.get_lc_graph_by_max_edge if k == "maxedge" else pre.get_lc_graph_by_max_neighbor_edge
+                        arg = nx.to_numpy_array(G) if as_matrix else G
+                        out = f(arg, n_graphs, pre.graph_metric_lists[mi], n_trial=n_trial)
+                        gl = [x[1] for x in out]
+                        ctx.probe("preprocessing_explorer_done")
+                        if len(gl) > n_graphs:
+                            ctx.probe("preprocessing_more_than_requested")
+                        if not judge_orbit(ctx, step, gl, n, orbit, {"call": k}, distinct=None):
+                            break
+                        ctx.log(step, k, n_graphs, mi, n_trial, len(gl))
                     elif k in ("rgs", "linear", "dfs"):
                         if k == "rgs":
                             m = n // 2
